@@ -179,6 +179,7 @@ package scheduler
 //@   ensures #C02.error-recorded failed[stage] && !stage.AllowFailure ==> stage.Status == StatusError && g.error != nil
 //@   ensures #C02.done-otherwise !(failed[stage] && !stage.AllowFailure) ==> stage.Status == StatusDone
 //@   effect no may-block before runStage
+//@   effect no lock-held at runStage
 //@   callsite runStage
 //@     requires #C03.runs-once calls(runStage) == 0
 //@     ghost failed[stage] = (result != nil)
@@ -191,6 +192,7 @@ package scheduler
 //@   modifies *
 //@   ensures #own-status-untouched stage.Status == old(stage.Status)
 //@   effect no may-block before Run
+//@   effect no lock-held at Run
 //@   callsite Run
 //@     requires #C08.runs-own-task arg0 == stage.Task
 //@     requires #C09.stage-env-over-task-env stage.Env != nil && old(stage.Task.Env) != nil ==> over(stage.Task.Env, old(stage.Task.Env), stage.Env)
